@@ -48,7 +48,7 @@ SRC_FILES = ["src/rime/dict/dict_compiler.cc", "src/rime/algo/algebra.cc", "src/
              "src/rime/dict/mapped_file.h"]
 NONDELETING = ("derive", "fuzz", "abbrev")
 DELETING = ("xlit", "xform", "erase")
-GENERATOR_VERSION = 3
+GENERATOR_VERSION = 4
 
 
 def hx(b):
@@ -253,6 +253,98 @@ def gen_anchor_grid(rng, cid0):
                 ops += ["rule " + hx(f), "apply", "build", "queries %d 3 8" % rng.randrange(1 << 30)]
                 cases.append(ops)
     return cases
+
+
+def gen_penalty_chain(rng, cid):
+    """directed family: a spelling reachable ONLY through a chain of 3-5 derivation steps, most of them penalised (fuzz /
+    abbrev, mixed, the odd unpenalised derive): step i rewrites a piece of the previous result into a letter no other rule
+    produces, so the deepest spelling needs every step and carries the accumulated credibility (3-5 x log 1/2); the
+    intermediate spellings are reachable by fewer steps.  Controls: with some probability a last rule gives the deepest
+    spelling a short route as well (derive straight from the syllable), and bystander syllables share pieces with the chain."""
+    pool = list(b"abcdefghijklmnopqrstuvwxyz")
+    rng.shuffle(pool)
+    base, fresh = pool[:4], pool[4:12]
+    L = [bytes([x]) for x in base]
+    syl0 = b"".join(rng.choice(L) for _ in range(rng.randint(4, 7)))
+    syls = {syl0}
+    for _ in range(rng.randint(0, 4)):
+        r = rng.random()
+        if r < 0.4:
+            syls.add(syl0[:rng.randint(1, len(syl0) - 1)] + rng.choice(L))      # shares a prefix
+        elif r < 0.7:
+            syls.add(rng.choice(L) + syl0[rng.randint(1, len(syl0) - 1):])      # shares a suffix
+        else:
+            syls.add(b"".join(rng.choice(L) for _ in range(rng.randint(1, 4))))
+    steps = rng.randint(3, 5)
+    cur, rules = syl0, []
+    for i in range(steps):
+        kind = rng.choice([b"fuzz", b"fuzz", b"abbrev", b"abbrev", b"derive"]) if i else rng.choice([b"fuzz", b"abbrev"])
+        z = bytes([fresh[i]])
+        shape = rng.random()
+        if shape < 0.3 or len(cur) < 2:
+            pat, rep = b"^" + cur + b"$", cur[:max(1, len(cur) - 1)] + z if rng.random() < 0.5 else z + cur[1:]
+        elif shape < 0.55:
+            n = rng.randint(1, len(cur) - 1)
+            pat, rep = b"^" + cur[:n], z                                      # rewrite a prefix
+        elif shape < 0.8:
+            n = rng.randint(1, len(cur) - 1)
+            pat, rep = cur[n:] + b"$", z                                      # rewrite a suffix
+        else:
+            pat, rep = b"^(.)" + cur[1:] + b"$", b"$1" + z                       # keep the initial (abbreviation style)
+        rules.append(kind + b"/" + pat + b"/" + rep + b"/")
+        try:
+            nxt = re.sub(pat, rep.replace(b"$1", b"\\1"), cur)
+        except re.error:
+            nxt = cur
+        cur = nxt if nxt != cur else cur + z
+    if rng.random() < 0.3:
+        rules.append(b"derive/^" + syl0 + b"$/" + cur + b"/")                   # control: a short route to the deepest spelling
+    ops = ["case %d" % cid, "syl " + " ".join(hx(x) for x in sorted(syls))]
+    ops += ["rule " + hx(f) for f in rules]
+    ops.append("apply")
+    if rng.random() < 0.3:
+        ops.append("compile")
+    else:
+        if rng.random() < 0.5:
+            ops.append("glue")
+        ops.append("build")
+    ops += ["queries %d 5 40" % rng.randrange(1 << 30), "q " + hx(cur), "x " + hx(cur[:1]) + " 0"]
+    return ops
+
+
+def gen_prefix_chain(rng, cid):
+    """directed family: EVERY prefix of one spelling of 9-14 letters is itself a spelling, so CommonPrefixSearch on the long
+    strings has 9-14 nested results (pinyin: 6).  The prefixes are syllables of their own, or made from the one long syllable
+    by derive / abbrev / fuzz rules (one rule per length, or the same cut-the-last-letter rule repeated)."""
+    letters = rng.choice([b"a", b"ab", b"abc", b"xyz", b"a1", b"aB;"])
+    n = rng.randint(9, 14)
+    w = bytes(rng.choice(letters) for _ in range(n))
+    style = rng.choice(["syllables", "syllables", "per-length", "repeat"])
+    rules = []
+    if style == "syllables":
+        syls = [w[:i] for i in range(1, n + 1)]
+    else:
+        syls = [w]
+        kinds = [b"derive", b"derive", b"abbrev", b"fuzz"]
+        if style == "per-length":
+            for i in rng.sample(range(1, n), n - 1):
+                rules.append(rng.choice(kinds) + b"/^(" + w[:i] + b").+$/$1/")
+        else:
+            k = rng.choice(kinds)
+            rules = [k + b"/^(.+).$/$1/"] * (n - 1)
+    for _ in range(rng.randint(0, 3)):
+        syls.append(w[:rng.randint(1, n - 1)] + bytes([rng.choice(b"qrs")]))       # branches off the chain
+    ops = ["case %d" % cid, "syl " + " ".join(hx(x) for x in syls)]
+    ops += ["rule " + hx(f) for f in rules]
+    ops.append("apply")
+    if style != "syllables" and rng.random() < 0.5:
+        ops.append("glue")
+    ops.append("build noscript" if style == "syllables" and rng.random() < 0.4 else "build")
+    ops.append("queries %d 5 40" % rng.randrange(1 << 30))
+    for q in (w, w + w[:3], w + b"q", w[:9], w[:10], w[1:]):
+        ops += ["q " + hx(q)]
+    ops += ["x " + hx(w[:1]) + " 0", "x " + hx(w[:8]) + " 3"]
+    return ops
 
 
 # ----------------------------------------------------------------------------- running both sides
@@ -534,6 +626,12 @@ def monitor(prim):
                 if f["loaded"] == "1" and step is not None and cur != step and "round=threw" not in " ".join(o for _, o in prim):
                     v.append(("C09:harness:stepwise", {"clause": "one-formula-at-a-time application and whole Projection::Apply differ on the real code"}))
                 stats["merged_entries"] += sum(1 for k, vec in cur if len(vec) > 1 or any(x[1] != 0 for x in vec))
+                for k, vec in cur:      # spellings whose BEST reading carries >= 3 penalties (reachable only through long chains)
+                    try:
+                        if vec and max(int(x[2]) for x in vec) <= -3:
+                            stats["deep_only_spellings"] = stats.get("deep_only_spellings", 0) + 1
+                    except ValueError:
+                        pass
                 if f["modified"] == "1" and any(len(vec) > 1 or any(x[1] != 0 for x in vec) for k, vec in cur):
                     stats["nontrivial"] = True
         elif a[0] == "build":
@@ -588,6 +686,8 @@ def monitor(prim):
             if f["get"] != want or f["has"] != ("1" if q in keys else "0"):
                 v.append(("C09:prism:get", {"clause": "GetValue/HasKey(%r) = %s/%s, key table says %s" % (q, f["get"], f["has"], want), "query": hx(q)}))
             wantc = [(keys.index(q[:l]), l) for l in range(1, len(q) + 1) if q[:l] in keys]
+            if len(wantc) > 8:
+                stats["cps_more_than_8"] = stats.get("cps_more_than_8", 0) + 1
             if parse_matches(f["cps"]) != wantc:
                 v.append(("C09:prism:cps", {"clause": "CommonPrefixSearch(%r) = %s, keys that are prefixes: %s" % (q, f["cps"], wantc), "query": hx(q)}))
         elif a[0] == "x" and keys is not None:
@@ -724,12 +824,17 @@ def run(c):
     for _ in range(3 if quick else 40):
         for g in gen_anchor_grid(rng, ngen + len(cases)):
             cases.append(("grid", g))
+    for _ in range(12 if quick else 300):
+        cases.append(("penalty-chain", gen_penalty_chain(rng, ngen + len(cases))))
+    for _ in range(8 if quick else 150):
+        cases.append(("prefix-chain", gen_prefix_chain(rng, ngen + len(cases))))
     # K + O in batches
     o_fail, mismatches, san = {}, [], []
     foreign_crashes = 0
     nontrivial, seen_hash = set(), set()
     totals = {"rounds": 0, "applied_rounds": 0, "merged_entries": 0, "queries": 0, "compiles": 0, "compiles_refused_empty_table": 0, "table_build_failures": 0,
-              "ref_outcomes": 0, "ref_disagree": 0, "erase_contains_not_whole": 0, "erase_modelled": 0}
+              "ref_outcomes": 0, "ref_disagree": 0, "erase_contains_not_whole": 0, "erase_modelled": 0,
+              "deep_only_spellings": 0, "cps_more_than_8": 0}
     ref_bad = None
     samples = []
     B = 50 if quick else 200
@@ -833,7 +938,9 @@ def run(c):
                  "0-6 formulas of the six kinds with generated regexes (classes, anchors, alternations, back-references, match-nothing, "
                  "match-everything, erase-to-empty, malformed; erase patterns in every anchoring: none, ^ only, $ only, both), or 1-8 direct Script::Merge calls with arbitrary type/penalty/tips; "
                  "plus a directed grid {erase, xform, derive} x {no anchor, ^, $, ^$} x {whole syllable, piece of one} on syllabaries with shared pieces; 25%% of the ASCII "
-                 "alphabets contain digits / punctuation / upper case; then "
+                 "alphabets contain digits / punctuation / upper case; chains of 3-5 fuzz / abbrev / derive steps whose deepest spelling is "
+                 "reachable only through every step (with short-route controls); syllabaries / rule lists where every prefix of a 9-14 "
+                 "letter spelling is a spelling, queried on the long strings; then "
                  "Build+Save+Load (30%% of the ASCII cases: the real DictCompiler::Compile on generated dict/schema files instead) and GetValue/HasKey/CommonPrefixSearch/ExpandSearch (7 limits)/QuerySpelling on keys, all proper "
                  "prefixes, random strings. evaluations = primitive operations compared implementation vs model; a case is non-trivial "
                  "when the projection modified the script and some spelling ended with >= 2 syllables or a non-normal type; distinct by "
@@ -846,6 +953,8 @@ def run(c):
         "rule_outcomes_checked_against_reference_regex": totals["ref_outcomes"], "reference_regex_disagreements": totals["ref_disagree"],
         "erase_outcomes_where_match_differs_from_search": totals["erase_contains_not_whole"],
         "erase_rounds_computed_by_the_model_regex": totals["erase_modelled"],
+        "spellings_reachable_only_with_3_or_more_penalties": totals["deep_only_spellings"],
+        "common_prefix_queries_with_more_than_8_matches": totals["cps_more_than_8"],
         "correspondence_mismatches": len(mismatches), "impl_monitor_failures": len(o_fail), "sanitizer_aborts": len(san),
         "source_hash": vlib.source_hash(SRC_FILES), "proof_failures": audit["failures"],
     })
